@@ -30,6 +30,7 @@ type Evidence struct {
 	funcs                                 map[string]bool
 	exhaustive                            bool
 	obligations, discharged               int
+	validated                             int
 }
 
 func newEvidence(id, tier string, seed int) *Evidence {
@@ -118,7 +119,7 @@ func (e *Evidence) finish(wall time.Duration, violations int) {
 	c := e.Coverage
 	c["states"] = e.states
 	c["transitions"] = e.transitions
-	c["traces_validated_against_impl"] = 0
+	c["traces_validated_against_impl"] = e.validated
 	if len(e.samples) == 0 {
 		e.samples = append(e.samples, map[string]interface{}{"note": "no non-trivial path produced a sample in this run"})
 	}
